@@ -20,7 +20,7 @@ RULE = ('Batches of generated coarse-grained molecules: 1-6 particles, each with
         'coordinate scale 1..1e4; plus particles produced by the real do_mapping on synthetic force fields. Every '
         'molecule is run twice (original and rigidly moved frame). Non-trivial particle = >= 2 positioned '
         'constituents with unequal effective weights and >= 1 constituent without position or with weight 0; '
-        'distinct = distinct (constituent keys, weights, positions) hashes. Also: one processor object first run on a primer molecule whose force field configures the centre weight differently.')
+        'distinct = distinct (constituent keys, weights, positions) hashes. Also: one processor object first run on a primer molecule whose force field configures the centre weight differently; coordinates stored as integer arrays.')
 ASSUMPTIONS = ['weights are 0 or >= 1e-3 (the code treats |sum| < 1e-7 as zero, which the statement permits only for '
                'genuinely zero sums)', 'tolerance 1e-9 x (1 + largest |coordinate|)']
 MIN_HITS = {'quick': 20000, 'thorough': 800000}
@@ -42,13 +42,16 @@ def gen(rnd):
     dim = 3 if rnd.random() < 0.85 else 2
     scale = rnd.choice([1.0, 10.0, 100.0, 1e4])
     natoms = rnd.randint(1, 14)
+    # coordinates on an integer lattice, stored as integer arrays (hand-built / API-built molecules): weights stay fractional
+    intpos = rnd.random() < 0.12
     atoms = {}
     keys = rnd.sample(range(1000), natoms)
     for k in keys:
         d = {'atomname': 'A%d' % k, 'mass': rnd.choice(MASSES)}
         r = rnd.random()
         if r < 0.75:
-            d['position'] = [rnd.uniform(-scale, scale) for _ in range(dim)]
+            d['position'] = [rnd.randint(-int(min(scale, 100)), int(min(scale, 100))) for _ in range(dim)] if intpos else \
+                [rnd.uniform(-scale, scale) for _ in range(dim)]
         elif r < 0.88:
             d['position'] = None
         atoms[k] = d
@@ -81,7 +84,7 @@ def gen(rnd):
         parts.append({'cons': cons, 'given': given, 'has_graph': rnd.random() > 0.05,
                       'old_position': [rnd.uniform(-1, 1) for _ in range(dim)]})
     mode = rnd.choice(['ffvar', 'ffvar', 'none', 'none', 'disabled', 'explicit'])
-    return {'dim': dim, 'atoms': atoms, 'parts': parts, 'mode': mode}
+    return {'dim': dim, 'atoms': atoms, 'parts': parts, 'mode': mode, 'intpos': intpos}
 
 
 def build_and_run(case, transform=None):
@@ -97,7 +100,7 @@ def build_and_run(case, transform=None):
     for k, d in case['atoms'].items():
         p = d.get('position')
         if p is not None:
-            p = np.array(p, dtype=float)
+            p = np.array(p, dtype=int if (case.get('intpos') and transform is None) else float)
             if transform is not None:
                 p = transform[0] @ p + transform[1]
         apos[k] = p
